@@ -1537,13 +1537,14 @@ namespace bloch::compiler {
                 if (*right == 0)
                     throw BlochError(ErrorCategory::Semantic, bin->line, bin->column,
                                      "division by zero in constant integer expression");
-                return *left / *right;
+                // INT_MIN / -1 does not fit an int and traps on x86; fold in 64 bits and wrap like the run-time.
+                return static_cast<int>(static_cast<long long>(*left) / *right);
             }
             if (bin->op == "%") {
                 if (*right == 0)
                     throw BlochError(ErrorCategory::Semantic, bin->line, bin->column,
                                      "modulo by zero in constant integer expression");
-                return *left % *right;
+                return static_cast<int>(static_cast<long long>(*left) % *right);
             }
             return std::nullopt;
         }
